@@ -3,7 +3,8 @@ package main
 // c14_typed.go: DIRECT ORACLE for property C14 on the typed consensus codecs
 // (header, block, tx incl. box payloads, change logs of every type, account
 // record, deputy node, event, asset, network messages, Lemo address text).
-// No op lines are written here: only c.Count and c.Fail.
+// Mostly c.Count and c.Fail; the op lines of the typed layer are written through c14TypedOp (c14_tie.go) from
+// checkMut, and - for the account record and the blocks message - through c14_account.go.
 
 import (
 	"bytes"
@@ -2240,6 +2241,7 @@ func (t *c14tState) caseAccountData() {
 		t.fail("c14/accountdata-encode-nondeterministic", fmt.Sprintf("two encodings of the same AccountData (%d version records) differ: %s vs %s", len(a.NewestRecords), c14tHex(e1), c14tHex(e2)), desc())
 	}
 	enc, _, _ := t.roundTrip(c14tFamAccount, "", a, desc)
+	t.c14AcctEncOp(a) // `acctenc`: the model computes the encoding from the VALUE, records in a generator-chosen order
 	if a.Balance == nil {
 		if _, p := c14tTry(func() error { a.Copy(); return nil }); p != "" {
 			c.Count("info:accountdata-nil-balance-copy-panic")
@@ -2597,16 +2599,9 @@ func (t *c14tState) famMut(f *c14tFam, base []byte) (string, []byte, bool) {
 			out, ok := rep([]int{10}, func([]byte) []byte { return []byte{byte(1 + t.rn(127))} })
 			return "acct-txcount", out, ok
 		default:
-			out, ok := rep([]int{11}, func(p []byte) []byte {
-				recs, ok := c14tSplit(p)
-				if !ok || len(recs) == 0 {
-					r := c14tList([]byte{0x01}, []byte{0x02}, []byte{0x03})
-					r2 := c14tList([]byte{0x01}, []byte{0x05}, []byte{0x06})
-					return c14tList(r, r2)
-				}
-				return c14tList(append(c14tCopyItems(recs), recs[0])...)
-			})
-			return "acct-record-dup", out, ok
+			var class string
+			out, ok := rep([]int{11}, func(p []byte) []byte { var o []byte; class, o = t.c14aMutRecords(p); return o })
+			return class, out, ok
 		}
 	case "changelog":
 		items, ok := c14tSplit(base)
@@ -2726,6 +2721,13 @@ func (t *c14tState) checkMut(f *c14tFam, class string, b []byte) {
 		c.Count("typed:" + f.name + ":mut:" + class + ":panic")
 		t.fail("c14/"+f.name+"-decode-panic", "mutation "+class+": "+pan, c14tHex(b))
 		return
+	}
+	// ties of LemoModel/RlpAccount.lean (c14_account.go): the decoded account VALUE, the network path of a blocks message
+	switch f.name {
+	case "accountdata":
+		c14AcctValOp(c, b)
+	case "blocks":
+		c14BlocksMsgOp(c, b, err == nil)
 	}
 	if err != nil {
 		c.Count("typed:" + f.name + ":mut:" + class + ":reject")
@@ -2954,6 +2956,8 @@ func (t *c14tState) caseAddress() {
 
 func (t *c14tState) edgeProbes() {
 	c := t.c
+	t.c14AcctWitnesses() // the refutation witnesses of LemoProofs/C14Account.lean on the real code
+	t.c14BoundTyped()    // short/long-form header boundary family inside typed values (c14_bounds.go)
 	// a Block without header cannot be encoded (Header.EncodeRLP dereferences nil)
 	if _, _, p := c14tEnc(&types.Block{}); p != "" {
 		c.Count("info:block-nil-header-encode-panic")
